@@ -426,6 +426,10 @@ func (g *gen) readFmt(i int) string {
 		return "*a"
 	}
 	sizes := []int64{0, 0, 1, 1, 2, 3, 10, 100, 1000, 4095, 4096, 4097, 8192, rem, rem + 1, rem - 1, rem / 2, n + 10, 20000}
+	if r.Intn(40) == 0 {
+		// counts far beyond any file: the bytes up to the end of the file are the answer
+		sizes = []int64{1 << 31, 1 << 40, 1 << 53}
+	}
 	s := sizes[r.Intn(len(sizes))]
 	if s < 0 {
 		s = 0
